@@ -351,11 +351,11 @@ def impl_only(sc, lines, cmd=None):
     retried one process each with a short timeout, so that only the crashing line itself stays `CRASH`."""
     cmd = cmd or sc.impl
     pre = [sc.desc_line()]
-    out = run_lines(cmd, lines, prefix=pre)
+    out = run_lines(cmd, lines, prefix=pre, timeout=45)      # a runaway FillRandom (goldmaster cycleTuple) runs for minutes
     bad = [i for i, a in enumerate(out) if a == "CRASH"]
     for i in bad[:400]:
         try:
-            out[i] = run_lines(cmd, [lines[i]], prefix=pre, jobs=1, timeout=10)[0]
+            out[i] = run_lines(cmd, [lines[i]], prefix=pre, jobs=1, timeout=4)[0]
         except Exception:
             out[i] = "CRASH"
     return out
